@@ -159,6 +159,8 @@ func (r *Run) Finish(cov Coverage) {
 	flaky := ""
 	for _, s := range sigs {
 		fs := r.failures[s]
+		// shortest case first: it is the one shown in the detail line and the first one a replay executes
+		sort.SliceStable(fs, func(i, j int) bool { return len(fs[i].Detail) < len(fs[j].Detail) })
 		// 5x reproduction rule for the first failure of each signature.
 		if fs[0].Repro != nil {
 			ok := 0
